@@ -46,6 +46,7 @@ static int check_aggr(KSI_AggregationHashChain *c, int alg, const unsigned char 
 	rr = ref_chain_aggregate(alg, in, in_len, start, links, n, exp, &exp_len, &exp_level);
 	res = KSI_AggregationHashChain_aggregate(c, start, &lvl, &root);
 	vf_count("impl_calls", 1);
+	if (res != KSI_OK && root != NULL) vf_fail("refused-with-root", "KSI_AggregationHashChain_aggregate start=%d returned 0x%x and still handed out a root", start, res);
 	if (rr == 0 && !backend_supports(alg)) {
 		/* the OpenSSL hashing back end of the SDK does not implement this algorithm: the chain cannot be
 		 * aggregated; the only requirement is that no WRONG value is produced */
@@ -111,6 +112,7 @@ static void run_links_case(int alg, int in_alg, const rlink *links, size_t n, co
 				vf_fail("aggr-direct-mismatch", "KSI_HashChain_aggregate start=%d: expected level %d root %s, got res 0x%x level %d root %s", starts[0], elv, vf_hex(exp, el), r2, lv, ku_hash_hex(out));
 			if (rr == -1 && r2 == KSI_OK)
 				vf_fail("aggr-out-of-range-accepted", "KSI_HashChain_aggregate start=%d: reference rejects but library returned OK level=%d", starts[0], lv);
+			if (r2 != KSI_OK && out != NULL) vf_fail("refused-with-root", "KSI_HashChain_aggregate start=%d returned 0x%x and still handed out a root", starts[0], r2);
 			KSI_DataHash_free(out);
 		}
 	}
@@ -303,6 +305,7 @@ static void part_a5(void) {
 			vf_count("impl_calls", 1);
 			if (ok && (res != KSI_OK || !ku_hash_eq(out, cur, cur_len))) vf_fail("list-mismatch", "start=%d expected %s got res %x %s", start, vf_hex(cur, cur_len), res, ku_hash_hex(out));
 			if (!ok && res == KSI_OK) vf_fail("list-out-of-range-accepted", "start=%d: reference rejects, library OK", start);
+			if (res != KSI_OK && out != NULL) vf_fail("refused-with-root", "KSI_AggregationHashChainList_aggregate start=%d returned 0x%x and still handed out a root (%s): the root of a truncated list", start, res, ku_hash_hex(out));
 			vf_outcome("list:%s:%s", ok ? "accept-expected" : "reject-expected", res == KSI_OK ? "ok" : "err");
 			KSI_DataHash_free(out);
 			KSI_AggregationHashChainList_free(list);
